@@ -18,6 +18,9 @@ from props import sigcheck
 
 ID = 'C18'
 LEVEL = 'proof'
+# the alias-and-mutation table generated from the source (tools/py2v.py part 6, tools/mutscan.py): pure_table is an obligation while the
+# scan can read the whole package; otherwise (STATUS failed) the dynamic sweep below stands alone
+GEN_TIES = {'Mutation': 'Props/GenTie_Mutation.v'}
 B = BLOCK['C18']
 TIE = {'approval.ProportionalApproval (_coefs), rankscore.Borda + convert.RankedToPositionalVotes, auxiliary.Sortitor / '
        'RandomUnrankedBallotSelector (util.select_n_random with recorded draws), core.MultistageDistributor / UnusedVotesDistributor '
@@ -629,6 +632,92 @@ def check_generated_defaults(ctx):
                                              mutation_sites=['%s.%s: self.%s (%s)' % (c['name'], m, a, w) for c in table['classes'] for m, a, w in c['mutations']])
 
 
+# ================================================================ (d) the generated alias-and-mutation table
+def _mutation_exceptions():
+    """the exception list of Props/GenTie_Mutation.v, read back from the Coq source: [(module, qualname, param, direct)]"""
+    import re
+    src = open(os.path.join(common.VERIF, 'coq', 'Props', 'GenTie_Mutation.v')).read()
+    body = src[src.index('Definition exceptions'):src.index('Definition excepted')]
+    return [(m, q_, p, d == 'true') for m, q_, p, d in
+            re.findall(r'\("((?:[^"]|"")*)",\s*"((?:[^"]|"")*)",\s*"((?:[^"]|"")*)",\s*(true|false),', body)]
+
+
+def mutation_rows(table):
+    """the rows that make pure_table false - the same reading as Props/GenTie_Mutation.v pure_row, done here only to NAME the site"""
+    exc = _mutation_exceptions()
+    bad = []
+    for r in table.get('rows', []):
+        if r['cls'] != 'MayMutate':
+            continue
+        via = r['kind'].startswith('via:')
+        if r['param'] == 'self' and r['qualname'].endswith('.__init__'):
+            continue
+        if r['param'] in ('self', '<globals>') and via:
+            continue
+        if any(m == r['module'] and q_ == r['qualname'] and p == r['param'] and (d or via) for m, q_, p, d in exc):
+            continue
+        bad.append(r)
+    return bad
+
+
+def load_mutation_table():
+    p = os.path.join(common.VERIF, 'coq', 'Gen', 'Mutation.json')
+    if not os.path.exists(p):
+        return None
+    t = json.load(open(p))
+    return t if t.get('rows') else None
+
+
+def check_mutation_table(ctx):
+    """(1) name the rows that break pure_table (the theorem itself is the obligation C18_pure_table; a flipped row is reported with its
+    site so that the replay says where); (2) cross-check: every argument mutation the dynamic sweep observed in THIS run must be
+    MayMutate in the table - a site seen mutated that the table calls Untouched / CopiedFirst means the scan is unsound"""
+    table = load_mutation_table()
+    if table is None or 'Mutation' in ctx.fallback:
+        ctx.notes.append('mutation-table: no generated table (translator status %s): arguments-untouched rests on the dynamic sweep alone'
+                         % json.dumps(ctx.gen_status.get('Mutation', {}))[:300])
+        ctx.streams['mutation-table'] = dict(cases=0, deviations=0, fallback=True)
+        return
+    rows = table['rows']
+    bad = mutation_rows(table)
+    for r in bad[:20]:
+        site = '%s.%s(%s)' % (r['module'], r['qualname'], r['param'])
+        ctx.violations.append(dict(stream='mutation-table', case=dict(unit='mutation-table', module=r['module'], qualname=r['qualname'],
+                                                                      param=r['param'], line=r['line'], kind=r['kind'],
+                                                                      public=r['public'], mutable_default=r['mutable_default']),
+                                   impl='MayMutate line %d %s; all evidence: %s' % (r['line'], r['kind'], r.get('all')),
+                                   model='Untouched | CopiedFirst | a listed exception (Props/GenTie_Mutation.v)',
+                                   why='%s may be changed by the call: %s line %d (%s)%s%s - not on the exception list of Props/GenTie_Mutation.v, '
+                                       'pure_table fails' % (site, r['module'].replace('.', '/') + '.py', r['line'], r['kind'],
+                                                             ', parameter of a public method' if r['public'] else '',
+                                                             ', shared mutable default %s' % r['default'] if r['mutable_default'] else '')))
+    if bad:
+        # the obligation C18_pure_table is broken by these rows: name them next to it, whichever violation the replay leads with
+        ctx.broken('mutation-table: ' + ', '.join('%s.%s(%s) line %d' % (r['module'], r['qualname'], r['param'], r['line']) for r in bad[:4]),
+                   'pure_table fails at: ' + '; '.join(
+            '%s.%s(%s) %s line %d %s' % (r['module'], r['qualname'], r['param'], r['module'].replace('.', '/') + '.py', r['line'], r['kind'])
+            for r in bad[:8]))
+    index = {(r['module'], r['qualname'], r['param']): r for r in rows}
+    unsound = []
+    for m, q_, p in sweep.OBSERVED_MUTATIONS:
+        r = index.get((m, q_, p))
+        if r is not None and r['cls'] != 'MayMutate':
+            unsound.append((m, q_, p, r['cls']))
+    if unsound:
+        ctx.broken('mutation-scan', 'the static alias-and-mutation scan is unsound: the dynamic sweep saw these arguments changed, the table '
+                                    'calls them %s' % unsound[:5])
+    ctx.evaluations += len(rows)
+    ctx.dist['mutation-table rows (function, parameter)'] = len(rows)
+    ctx.dist['mutation-table MayMutate rows'] = sum(1 for r in rows if r['cls'] == 'MayMutate')
+    ctx.dist['mutation-table CopiedFirst rows'] = sum(1 for r in rows if r['cls'] == 'CopiedFirst')
+    ctx.streams['mutation-table'] = dict(cases=len(rows), deviations=len(bad), functions=table.get('functions'),
+                                         public_rows=sum(1 for r in rows if r['public']),
+                                         mutable_default_rows=sum(1 for r in rows if r['mutable_default']),
+                                         observed_by_sweep=['%s.%s(%s)' % o for o in sweep.OBSERVED_MUTATIONS],
+                                         scan_unsound=['%s.%s(%s): %s' % u for u in unsound],
+                                         rejected=table.get('rejected'), callable_sites=len(table.get('callable_sites', [])))
+
+
 def corpus():
     for p in sorted(glob.glob(os.path.join(common.VERIF, 'corpus', ID, '*.json'))):
         yield json.load(open(p))
@@ -655,6 +744,7 @@ def explore(ctx, widen=1):
     run_sweep(ctx, ctx.n(10, 60) * (2 if widen > 1 else 1), first_seed=ctx.seed * 1000)
     check_module_state(ctx, before)
     check_generated_defaults(ctx)
+    check_mutation_table(ctx)
 
 
 def replay_sweep(ctx, case):
@@ -679,6 +769,8 @@ def replay(ctx, case, stream=None):
         ctx.differential('replay', [case], model_line, impl, canon=canon, nontrivial=nontrivial, spec=spec, known_class=known_class)
     elif u == 'sweep':
         replay_sweep(ctx, case)
+    elif u == 'mutation-table':
+        check_mutation_table(ctx)
     else:
         before = sweep.module_state()
         run_sweep(ctx, 2)
